@@ -48,4 +48,19 @@ theorem format_item_shape (z : Zoned) (hz : ZInv z) (Y : Int) (o : Nat) (hw : Wa
   · rw [if_pos hr, if_pos hr]; rfl
   · rw [if_neg hr, if_neg hr]; rfl
 
+/-- a day number names one day: two wall-clock dates of the same value coincide -/
+theorem wallDate_unique (z : Zoned) (Y Y' : Int) (o o' : Nat) (h : WallDate z Y o) (h' : WallDate z Y' o') :
+    Y = Y' ∧ o = o' := by
+  obtain ⟨a1, a2, a3⟩ := h
+  obtain ⟨b1, b2, b3⟩ := h'
+  have hyl := yearLen_ge Y
+  have hyl' := yearLen_ge Y'
+  have hd := date_of_daynum_unique Y Y' o o' ⟨a1, a2⟩ ⟨b1, b2⟩ (by rw [a3, b3])
+  obtain ⟨f1, f2, _⟩ := dateOfYo_fields Y o (by omega)
+  obtain ⟨g1, g2, _⟩ := dateOfYo_fields Y' o' (by omega)
+  rw [hd] at f1 f2
+  refine ⟨by rw [← f1, g1], ?_⟩
+  have : (o : Int) = (o' : Int) := by rw [← f2, g2]
+  omega
+
 end Chrono.Proofs.Rfc2822
